@@ -65,7 +65,8 @@ CLAIM = dict(
          "xmlattr, tojson judged by the C24 recognisers). Autoescaping configurations are also reached through overlays "
          "(of fresh and of already-used parents, overlays of overlays, siblings, parents re-checked; True / select_autoescape / callable; "
          "DictLoader / FunctionLoader; LRU, dict and no cache) with templates loaded by name (get_template, include, import, extends) and "
-         "compared with a fresh Environment of the effective options. Filters outside the Lean model (everything except indent, replace, join, "
+         "compared with a fresh Environment of the effective options. The term renders and the overlay histories also run in async "
+         "environments (enable_async=True via render(), render_async(), generate_async(); the Lean statement is mode-independent). Filters outside the Lean model (everything except indent, replace, join, "
          "format, truncate, wordwrap, escape, forceescape, and urlize/xmlattr/tojson of C24) are covered by this scan ONLY, not by proof.",
     note="Trusted: Lean kernel; the value-level model and the filter models (tied by correspondence); markupsafe. Known finding: an "
          "{% autoescape %} region does not reach into a {% block %} body written inside it (C15:autoescape-region-around-block). "
@@ -84,18 +85,20 @@ def make_case(ctx, i):
     nd = rng.randrange(1, 4)
     data = [rng.choice(DATA) for _ in range(nd)]
     g = T.TermGen(rng, LITS, TEXTS, data, ops=True)
-    return {"i": i, "data": data, "term": g.top(rng.randrange(2, ctx.pick(5, 6))), "mode": rng.choice(MODES), "rseed": rng.randrange(1 << 30)}
+    return {"i": i, "data": data, "term": g.top(rng.randrange(2, ctx.pick(5, 6))), "mode": rng.choice(MODES), "rseed": rng.randrange(1 << 30),
+            "api": rng.choice(T.APIS) if rng.random() < 0.5 else "sync"}
 
 
-def make_env(jinja2, mode, templates, rseed=0):
+def make_env(jinja2, mode, templates, rseed=0, api="sync"):
+    akw = T.api_env_kw(api)
     if mode == "static":
-        return jinja2.Environment(loader=jinja2.DictLoader(templates), autoescape=True)
+        return jinja2.Environment(loader=jinja2.DictLoader(templates), autoescape=True, **akw)
     if mode == "select":
         return jinja2.Environment(loader=jinja2.DictLoader(templates), autoescape=jinja2.select_autoescape(
-            enabled_extensions=("html", "XML"), disabled_extensions=("txt",), default=False, default_for_string=False))
+            enabled_extensions=("html", "XML"), disabled_extensions=("txt",), default=False, default_for_string=False), **akw)
     # block / volatile: the region switches autoescape on inside an environment whose default is off;
     # volatile_on: runtime-decided region inside an environment whose default is on
-    return jinja2.Environment(loader=jinja2.DictLoader(templates), autoescape=(mode == "volatile_on"))
+    return jinja2.Environment(loader=jinja2.DictLoader(templates), autoescape=(mode == "volatile_on"), **akw)
 
 
 WRAP = {"static": None, "select": None, "block": ("{% autoescape true %}", "{% endautoescape %}"),
@@ -104,14 +107,15 @@ SUFFIX = {"static": "", "select": ".Html", "block": "", "volatile": "", "volatil
 
 
 def render_term(jinja2, case):
-    mode = case["mode"]
-    rl = T.Realiser(random.Random(case["rseed"]), len(case["data"]), suffix=SUFFIX[mode], wrap=WRAP[mode])
+    mode, api = case["mode"], case.get("api", "sync")
+    rl = T.Realiser(random.Random(case["rseed"]), len(case["data"]), suffix=SUFFIX[mode], wrap=WRAP[mode], async_fn=api != "sync")
     main = rl.top(case["term"])
-    env = make_env(jinja2, mode, rl.templates)
+    env = make_env(jinja2, mode, rl.templates, api=api)
     kw = {f"d{i}": v for i, v in enumerate(case["data"])}
     kw["flag"] = True
+    kw.update(T.api_context(api))
     try:
-        out = env.get_template(main).render(**kw)
+        out = T.render_api(env.get_template(main), api, kw)
     except Exception as e:  # noqa
         out = f"raised:{type(e).__name__}:{e}"
     return out, rl.templates, rl.used
@@ -155,13 +159,16 @@ def run_terms(ctx, res, jinja2):
     outs = [render_term(jinja2, c) for c in cases]
     verdicts = core.driver_batch([[Atom("autoesc"), Atom("mfree"), o if not o.startswith("raised:") else ""] for o, _, _ in outs])
     used_all, modes, kinds, raised, nontrivial = {}, {}, {}, 0, set()
+    apis = {}
     for c, rep, (out, tpl, used), vd in zip(cases, replies, outs, verdicts):
         m_on, _, _, _, m_free = rep[1]
         for k, v in used.items():
             used_all[k] = used_all.get(k, 0) + v
         modes[c["mode"]] = modes.get(c["mode"], 0) + 1
         T.kinds(c["term"], kinds)
-        replay = {"term_case": c["i"], "mode": c["mode"], "data": c["data"], "templates": tpl, "term": core.sx(T.enc(c["term"]))}
+        replay = {"term_case": c["i"], "mode": c["mode"], "api": c["api"], "data": c["data"], "templates": tpl, "term": core.sx(T.enc(c["term"]))}
+        cfg = c["mode"] + ("" if c["api"] == "sync" else ":" + c["api"])
+        apis[c["api"]] = apis.get(c["api"], 0) + 1
         if m_free is not True:
             raise core.HarnessError(f"model violates its own theorem on {replay}")
         if out.startswith("raised:"):
@@ -172,14 +179,14 @@ def run_terms(ctx, res, jinja2):
             nontrivial.add((core.sx(T.enc(c["term"])), tuple(c["data"]), c["mode"]))
         if vd[1] is not True:
             main = [k for k in tpl if k.startswith("main")][0]
-            res.violate(f"C15:leak:{c['mode']}", f"raw markup character from data/literal in the output {out!r} (mode {c['mode']}, data {c['data']}, "
+            res.violate(f"C15:leak:{cfg}", f"raw markup character from data/literal in the output {out!r} (configuration {cfg}, data {c['data']}, "
                         f"main template {tpl[main]!r}); model {m_on!r}", replay)
         elif out != m_on:
-            res.violate("C15:model-difference", f"mode {c['mode']}: render {out!r}, model {m_on!r} — the output is still free of raw markup "
+            res.violate("C15:model-difference", f"configuration {cfg}: render {out!r}, model {m_on!r} — the output is still free of raw markup "
                         "characters, so this is not a leak (C15's statement holds on this input); a different amount of escaping is C16's / "
                         "C24's matter", replay, no_input=True)
     return {"renders": len(cases), "nontrivial": len(nontrivial), "mode_distribution": modes, "spellings_used": used_all,
-            "constructor_distribution": kinds, "raised": raised,
+            "constructor_distribution": kinds, "raised": raised, "api_distribution": apis,
             "samples": [{"term": core.sx(T.enc(cases[0]["term"])), "data": cases[0]["data"], "mode": cases[0]["mode"], "templates": outs[0][1]}]}
 
 
@@ -483,14 +490,15 @@ def run_envways(ctx, res, jinja2):
     data = {"x": rng.choice(["<m1>", "\"m2'", "a<m6>&b"]), "y": rng.choice(["<y1>", "' y2=\"<"])}
     uses, reqs = [], []
     for k, sc in enumerate(scenarios):
-        for way, i, kind, name, out, fresh in W.execute(jinja2, sc, data):
+        api = T.APIS[k % len(T.APIS)]
+        for way, i, kind, name, out, fresh in W.execute(jinja2, sc, data, api):
             on = W.effective_on(kind, name)
-            uses.append((k, way, i, kind, name, out, fresh, on))
+            uses.append((k, way + ("" if api == "sync" else ":" + api), i, kind, name, out, fresh, on))
             reqs.append([Atom("autoesc"), Atom("mfree"), out if on and not out.startswith("raised:") and T_wire_ok(out) else ""])
     by_way, leaks, stale = {}, 0, 0
     for (k, way, i, kind, name, out, fresh, on), rep in zip(uses, core.driver_batch(reqs)):
         by_way[way] = by_way.get(way, 0) + 1
-        replay = {"scenario": scenarios[k], "data": data, "env_index": i, "name": name, "way": way}
+        replay = {"scenario": scenarios[k], "data": data, "env_index": i, "name": name, "way": way, "api": T.APIS[k % len(T.APIS)]}
         if out.startswith("raised:") and not fresh.startswith("raised:"):
             res.violate(f"C15:envway:raised:{way}", f"{way}: get_template({name!r}).render raised {out[:120]!r} (a fresh environment renders it)",
                         replay, no_input=True)
@@ -553,7 +561,7 @@ def replay(ctx, case):
             return {"src": src, "raised": f"{type(e).__name__}: {e}"}
     if "scenario" in c:
         return [{"way": w, "env": i, "autoescape": k, "name": n, "render": o, "fresh": f}
-                for w, i, k, n, o, f in W.execute(jinja2, c["scenario"], c["data"])]
+                for w, i, k, n, o, f in W.execute(jinja2, c["scenario"], c["data"], c.get("api", "sync"))]
     if "src" in c and c.get("full"):
         env = make_env(jinja2, "static" if c["mode"] == "select" else c["mode"], {})
         try:
